@@ -1,8 +1,35 @@
+use candid_parser::{check_prog, IDLProg, syntax::IDLMergedProg};
+use candid::TypeEnv;
+use std::str::FromStr;
 fn main() {
-    let arg = std::env::args().nth(1).unwrap_or_default();
-    let s: &str = match arg.as_str() { "1" => "\"\\本\"", "2" => "\"\\é\"", "3" => "\"本\"", "4" => "\"\\a\"", "5" => "\"x\\本\"", _ => "\"\\n\"" };
-    println!("input {s:?} bytes {:x?}", s.as_bytes());
-    for t in candid_parser::token::Tokenizer::new(s) {
-        println!("{t:?}");
+    let src = r#"
+// doc for A */ `x` ${y}
+type A = record { "a b" : nat; 5 : opt A; /* c */ "query" : vec nat8; "it's" : B };
+// doc B
+type B = variant { ok; err : text; "new" : record { nat; text } };
+type F = func (nat, B) -> (opt A) query;
+type S = service { get : F; "set val" : (A) -> () oneway };
+// service doc
+service : (nat, opt B) -> {
+  // method doc */
+  m1 : (A, B) -> (F, S) composite_query;
+  "return" : (principal, blob, reserved, empty, float32) -> ();
+}
+"#;
+    let ast: IDLProg = src.parse().unwrap();
+    let mut env = TypeEnv::new();
+    let actor = check_prog(&mut env, &ast).unwrap();
+    let ast2: IDLProg = src.parse().unwrap();
+    let prog = IDLMergedProg::new(ast2);
+    let which = std::env::args().nth(1).unwrap_or_default();
+    match which.as_str() {
+        "ts" => println!("{}", candid_parser::bindings::typescript::compile(&env, &actor, &prog)),
+        "mo" => println!("{}", candid_parser::bindings::motoko::compile(&env, &actor, &prog)),
+        "rs" => {
+            let cfg = candid_parser::bindings::rust::Config::new(candid_parser::configs::Configs::from_str("").unwrap());
+            let (s, unused) = candid_parser::bindings::rust::compile(&cfg, &env, &actor, &prog, Default::default());
+            println!("{s}\n// unused: {unused:?}");
+        }
+        _ => println!("{}", candid_parser::bindings::javascript::compile(&env, &actor)),
     }
 }
